@@ -50,8 +50,8 @@ CLAIMS = {
   note="Assumes the Reader model (finite byte sequence then EOF forever, trusted spec of Reader.ReadByte). Undecided: exact decimal value of numbers, strings/literals, dates, composite command grammar, case-insensitivity of keywords, chunking independence beyond byte-wise reads.",
   ref="DESIGN.md §4 C10"),
  "C11": dict(
-  text="Deductive proof of termination and bounded growth for the parser core: Advance strictly decreases a measure (unread bytes, look-ahead) unless the source is exhausted; every loop under contract carries a decreases clause on that measure; results are bounded by the input consumed; no panic / overflow / out-of-range obligations remain open in the functions under contract.",
-  note="Assumes the Reader model. Undecided so far: ParseQuoted/ParseLiteral/atoms, command.Parser.Parse tag handling, recursion depth of search keys, session loop (one completion per command), process RSS.",
+  text="Deductive proof of termination and bounded growth for the parser core: Advance strictly decreases a measure (unread bytes, look-ahead) unless the source is exhausted; every loop under contract carries a decreases clause on that measure; results are bounded by the input consumed; no panic / overflow / out-of-range obligations remain open in the functions under contract (91: the parser core, every command and argument parser, the FETCH partial item, and the charset decoder of the SEARCH handler, which is only used when the charset has an implementation - a genuine crash found there was repaired).",
+  note="Assumes the Reader model. Open finding: unbounded recursion depth of search keys. Undecided: session loop (one completion per command, error counting, silent close on a non-parser error of ParseLiteral), input collector growth, line length, process RSS, other sessions.",
   ref="DESIGN.md §4 C11"),
  "C16": dict(
   text="Deductive proof, for every sequence set and every view size, that written numbers fit 32 bits (type invariant of SeqNum established by the parser), that resolution of numbers/ranges/'*' yields the RFC interval (min/max, '*' = last), that a sequence-number set fails with ErrNoSuchMessage exactly when some number lies beyond the message count or the view is empty, that every returned message is the one at its sequence number and lies in a requested range, and that UID sets never fail on a non-empty view and return only messages whose UID lies in a requested range; the FETCH, STORE and SEARCH handlers answer BAD (not NO, not an error) when the state reports a sequence set beyond the view; a SEARCH sequence-set key fails exactly like FETCH's and a SEARCH UID-set key never fails (a genuine defect found here was repaired).",
